@@ -11,6 +11,15 @@ CLAIMED = {
 CLAIMED["C01"] = ("proof", CLAIMED["C12"][1],
     "contracts on the real bodies of the report getters, ProjectReport.generate (4 loops with invariants), FileReport.generate (3 nested loops), is_compliant and the lint callback; lemma `verdict`: compliant <=> clauses (a)-(d) of the statement over the per-file results; lint's exit status proved 0 exactly then, on every output branch (626 obligations, unbounded)",
     "assumed contracts: _generate_file_reports (covered-file enumeration: C03/C14), Project.reuse_info_of (C04), ClickObj.project (C16), formatters' frames (C13), license_expression/hashlib as uninterpreted; trusts pyvc's encoding and z3", "4.1")
+CLAIMED["C03"] = ("proof", CLAIMED["C12"][1] + "; regular-language membership via z3 (lazy regex abstraction)",
+    "is_path_ignored's real body proved equivalent to the statement's decision formula for all names (file-name language equality, directory-name sandwich, subset/submodule/Meson/VCS clauses); relativised to the committed known finding; plus a bounded real-tree enumeration through iter_files (labelled bounded)",
+    "assumes pathlib/os.stat/os.walk observers and Git's answer sets; iter_files' walk loop is exercised by the bounded tree enumeration only; names free of newlines", "4.3")
+CLAIMED["C05"] = ("other", "language inclusion of the real compiled matcher against the statement's glob language, decided by z3's regex solver per glob (all paths), globs enumerated to a bound",
+    "for every glob over {a . / * \\} up to length 4 (quick) / 6 (thorough) the real _paths_regex is sandwiched between the narrow and wide reading for ALL paths (unbounded in the path, bounded in the glob)",
+    "bounded in the glob; trusts pyvc.rx and z3's regex theory; code points <= U+2FFFF", "4.5")
+CLAIMED["C17"] = ("other", "language equality of the two real compiled matchers (python-debian vs converted REUSE.toml glob), decided by z3 per pattern (all paths), patterns enumerated to a bound",
+    "for every legal dep5 pattern over {a / * ? \\} up to length 4 (quick) / 5 (thorough) the dep5 matcher and the converted REUSE.toml matcher are compared as languages for ALL paths; two known findings ('?' and '*/') are listed and every other difference is a violation",
+    "bounded in the pattern; content/ordering/command effects of the conversion are not yet under contract (see DESIGN 4.17)", "4.17")
 NOT_YET = "check not built yet in this session (work in progress; see DESIGN.md section 4 for the planned contracts)"
 props = [json.loads(l) for l in open(os.path.join(V, "properties.jsonl"))]
 checks, na = [], []
